@@ -21,3 +21,19 @@ pub proof fn lemma_val_strip(s: Seq<u64>, k: nat)
         assert(s.subrange(0, k as int) =~= s);
     }
 }
+
+/// if s and its prefix of length k denote the same number, the digits from k on are zero
+pub proof fn lemma_stripped_zero(s: Seq<u64>, k: nat, i: int)
+    requires k <= i < s.len(), val(s.subrange(0, k as int)) == val(s)
+    ensures s[i] == 0
+{
+    let p = s.subrange(0, k as int);
+    let t = s.subrange(k as int, s.len() as int);
+    assert(s =~= p + t);
+    lemma_val_concat(p, t);
+    lemma_pw_pos(k);
+    assert(pw(k) * val(t) == 0);
+    assert(val(t) == 0) by (nonlinear_arith) requires pw(k) * val(t) == 0, pw(k) >= 1;
+    lemma_valp_zero_iff(t, t.len());
+    assert(t[i - k] == s[i]);
+}
